@@ -233,6 +233,62 @@ pub fn gen_program(r: &mut Rng, stats: &mut Out, filter_rate: usize) -> String {
     g.out
 }
 
+/// filters for ONE lint at every level: an optional file-wide filter, then nested blocks each of which may
+/// carry its own filter for the same lint, with a statement the lint reports before, inside and after each
+/// level. The innermost enclosing filter decides (C08); which one that is only shows when several levels
+/// name the same lint with different variations.
+pub fn gen_nest_program(r: &mut Rng, stats: &mut Out) -> String {
+    let (lint, trigger): (&str, fn(usize) -> String) = match r.below(4) {
+        0 => ("unused_variable", |i| format!("local unused_{i} = {i}")),
+        1 => ("divide_by_zero", |i| format!("print({i} / 0)")),
+        2 => ("undefined_variable", |i| format!("print(undefined_{i})")),
+        _ => ("empty_if", |i| format!("if cond_{i} == nil then end")),
+    };
+    let variations = ["allow", "deny", "warn"];
+    let mut out = String::new();
+    let mut counter = 0usize;
+    if r.chance(3, 4) {
+        out.push_str(&format!("--# selene: {}({lint})\n", r.pick(&variations)));
+        stats.bump("nest_global_filter");
+    }
+    let depth = 1 + r.below(4);
+    stats.bump(&format!("nest_depth_{depth}"));
+    let mut closers: Vec<(String, String)> = Vec::new();
+    for d in 0..depth {
+        let pad = "  ".repeat(d);
+        counter += 1;
+        out.push_str(&format!("{pad}{}\n", trigger(counter)));
+        if r.chance(4, 5) {
+            out.push_str(&format!("{pad}-- selene: {}({lint})\n", r.pick(&variations)));
+            stats.bump("nest_level_filter");
+        }
+        let (open, close) = match r.below(5) {
+            0 => ("do".to_owned(), "end".to_owned()),
+            1 => (format!("if level_{d} == nil then"), "end".to_owned()),
+            2 => (format!("while level_{d} == nil do"), "end".to_owned()),
+            3 => (format!("local function level_{d}()"), "end".to_owned()),
+            _ => ("repeat".to_owned(), format!("until level_{d} == nil")),
+        };
+        out.push_str(&format!("{pad}{open}\n"));
+        closers.push((pad, close));
+    }
+    let pad = "  ".repeat(depth);
+    counter += 1;
+    if r.chance(1, 2) {
+        out.push_str(&format!("{pad}-- selene: {}({lint})\n", r.pick(&variations)));
+        stats.bump("nest_level_filter");
+    }
+    out.push_str(&format!("{pad}{}\n", trigger(counter)));
+    counter += 1;
+    out.push_str(&format!("{pad}{}\n", trigger(counter)));
+    while let Some((pad, close)) = closers.pop() {
+        out.push_str(&format!("{pad}{close}\n"));
+        counter += 1;
+        out.push_str(&format!("{pad}{}\n", trigger(counter)));
+    }
+    out
+}
+
 pub fn comment_sx(tok: &full_moon::tokenizer::Token) -> Option<Sx> {
     let text = match tok.token_type() {
         TokenType::SingleLineComment { comment } => comment.to_string(),
@@ -373,6 +429,9 @@ pub fn run(args: &Args, out: &mut Out) {
     for i in 0..args.n {
         let rate = [2, 4, 7][i % 3];
         programs.push(gen_program(&mut rng, out, rate));
+        if i % 4 == 0 {
+            programs.push(gen_nest_program(&mut rng, out));
+        }
     }
     for src in programs {
         let ast = match full_moon::parse(&src) {
@@ -431,7 +490,7 @@ pub fn run_c10(args: &Args, out: &mut Out) {
     let mut rng = Rng::new(args.seed ^ 0xC10);
     let std = StandardLibrary::from_name("lua51").unwrap();
     for i in 0..args.n {
-        let src = gen_program(&mut rng, out, [0, 2, 5][i % 3]);
+        let src = if i % 5 == 4 { gen_nest_program(&mut rng, out) } else { gen_program(&mut rng, out, [0, 2, 5][i % 3]) };
         let ast = match full_moon::parse(&src) {
             Ok(a) => a,
             Err(_) => continue,
